@@ -1,5 +1,5 @@
 CFG = {
-    "modules": ["Parsley.Props.C02", "Parsley.Props.C16"],
+    "modules": ["Parsley.Props.C02", "Parsley.Props.C16", "Parsley.Props.C02Struct"],
     "theorems": ["Parsley.C02.name_window_decoder_eq", "Parsley.C02.name_spelling_decodes", "Parsley.C02.name_roundtrip", "Parsley.C02.integer_spec", "Parsley.C02.integer_roundtrip",
                  "Parsley.C02.hexstring_spec", "Parsley.C02.litstring_roundtrip", "Parsley.C02.litLoop_balanced",
                  "Parsley.C02.real_spec", "Parsley.C02.ws_loop_eq_skip", "Parsley.C02.skipWs_run", "Parsley.C02.wsRun_run",
@@ -7,11 +7,26 @@ CFG = {
                  "Parsley.C02.spell_parse_hexstring", "Parsley.C02.spell_parse_keyword", "Parsley.Shift.parseObj_pre",
                  "Parsley.C02.spell_parse_int", "Parsley.C02.spell_parse_real", "Parsley.C02.spell_parse_ref",
                  "Parsley.C02.numberOrRef_after_int", "Parsley.C02.reference_spec",
-                 "Parsley.C16.parse_never_panics", "Parsley.C16.obj_loc"],
-    "partial": {"(spell_parse)": "END-TO-END through parse_pdf_obj (any leading whitespace/comment run, any context, any depth below the bound) for names, literal strings, hexadecimal strings, true/false/null, reals, references (any non-empty whitespace runs) and integers followed by a delimiter or the end of the buffer: proved (spell_parse_*); the number branch of the dispatcher is characterised exactly (numberOrRef_after_int: integer unless the look-ahead `ws+ int ws+ R<non-regular>` succeeds). NOT proved yet: integers followed by whitespace inside arrays/dictionaries (needs the look-ahead analysis of the following token) and the structural induction over arrays and dictionaries. Also proved: the whitespace/comment loop equals a byte-wise skipper on every input, and prefix independence of the whole object parser (parseObj_pre). Original note: the composite theorem `parseObj (spell v ch ++ ctx) = v` for all values/choices/contexts is not proved yet; "
-                "proved so far: integers (IntegerP on every sign/digit string/context, and every encoder spelling incl. leading zeros), hexadecimal strings (every digit/whitespace body, odd-digit padding, any context), literal strings (every balanced-modulo-escapes body, any context) and the name token at full strength (windowed decoder = declarative #hh decoder; every raw/#hh spelling with any hex case decodes to the name; "
-                "whole-token round trip in any terminator context), plus cursor=end/no-panic for every input (C16). Numbers, strings, references, arrays and "
-                "dictionaries are decided by the spelling-generator correspondence (oracle = the value that was spelled)."},
+                 "Parsley.C16.parse_never_panics", "Parsley.C16.obj_loc",
+                 "Parsley.C02.spell_parse", "Parsley.C02.spell_parse_at", "Parsley.C02.parseInternal_spells",
+                 "Parsley.C02.lookAhead_iff_refTail", "Parsley.C02.follows_iff_ctxOK", "Parsley.C02.follows_in_array",
+                 "Parsley.C02.follows_in_dict", "Parsley.C02.lookAhead_elems", "Parsley.C02.lookAhead_sep_tok",
+                 "Parsley.C02.within_bound_accepted", "Parsley.C02.dict_no_null_values",
+                 "Parsley.C02.dict_duplicate_rejected", "Parsley.C02.Spells.depth_le",
+                 "Parsley.C02.spell_is_Spells_partial"],
+    "partial": {"Parsley.C02.spell_is_Spells_partial": "the FULL statement `spell_parse` is proved (Props/C02Struct.lean): for every value, every legal spelling "
+                "in the relational spec `Spells d v tok` (mutual over values, array element lists and dictionary entry lists; separators non-empty exactly "
+                "between regular characters; null-valued entries dropped, repeated non-null keys excluded), every leading whitespace/comment run, every "
+                "context satisfying the declarative condition `Follows` (proved equivalent to what the parser needs: lookAhead_iff_refTail) and every "
+                "parser context with cur + d <= max, parse_pdf_obj returns exactly the value, located at the spelling, cursor after its last byte, depth "
+                "restored. What is partial is only the link from the relational spec to the EXECUTABLE encoder `spell` of Spec/Spelling.lean that the "
+                "driver uses as generator: proved for ALL scalars - keywords, integers, reals (spellReal), names, literal and hexadecimal strings "
+                "(hexBody_spec) and references (object number <= i64 max, which `wf` does not state); NOT proved for the encoder's arrays and dictionaries "
+                "(sepFor on bytes vs. on value kinds; the encoder's extra `/#01nul null` entry needs the key to be unused; `wf` does not require sorted, "
+                "duplicate-free dictionaries). For those the generator/spec agreement is decided by the correspondence run.",
+                "(depth)": "the depth hypothesis of spell_parse is on the SPELLING depth d (index of `Spells`), not on depth(v): a dropped null-valued "
+                "entry still needs one nesting level (`<</A null>>` has value depth 1 but is rejected at cur+1 = max by the real parser and the model); "
+                "Spells.depth_le proves depth v <= d."},
     "n": {"quick": 4000, "thorough": 150000},
     "exhaustive": {"quick": False, "thorough": False},
     "rule": "random values (depth <= 4; boundary integers, reals, names/strings over delimiters, escapes and high bytes, references, arrays, "
@@ -24,9 +39,14 @@ CFG = {
 }
 LEVEL = {
     "design_ref": "DESIGN.md 3.C02/C16",
-    "technique": "Lean 4 token round-trip theorems over an executable model + spelling-generator differential correspondence",
-    "text": "Machine-checked proof that the name decoder (the windows(3) loop as written) equals the declarative #hh decoder on every span and that every "
-            "raw/#hh spelling of every null-free byte string, in any hex case, followed by any terminator context, parses to exactly that name with the cursor "
-            "after its last byte; for the other token kinds and the composite objects the property is decided on the real code by an oracle that knows the value "
-            "that was spelled (random values x random encoder choices x contexts), with the executable model tied to the parser by the same run.",
+    "technique": "Lean 4 theorem `spell_parse` (all values x all legal spellings x all contexts x all depths) over an executable model + spelling-generator differential correspondence",
+    "text": "Machine-checked proof of the whole statement on the executable model (spell_parse): for every value, every legal spelling of it "
+            "(relational spec `Spells`: all token spellings, all whitespace/comment separators - non-empty exactly between regular characters -, "
+            "arrays and dictionaries nested to any depth, null-valued entries dropped, repeated non-null keys excluded), after any whitespace/comment "
+            "run, before any context satisfying the declarative condition `Follows` (delimiter / end of buffer after regular-ending tokens; no "
+            "`ws+ int ws+ R` after an integer - proved EQUIVALENT to the dispatcher's look-ahead), at any context depth with room for the spelling: "
+            "parse_pdf_obj returns exactly the value, located at the spelling, cursor after its last byte, depth restored. For ALL inputs: an accepted "
+            "value contains no null-valued dictionary entry at any level (dict_no_null_values); a repeated non-null key is rejected whatever follows "
+            "(dict_duplicate_rejected). The model is tied to the real parser by the correspondence run, whose oracle knows the value that was spelled "
+            "(random values x random encoder choices x contexts); the encoder's scalars are proved to be legal spellings (spell_is_Spells_partial).",
 }
